@@ -23,6 +23,11 @@ RULE = ("JSON documents shaped like version-1 and version-2 certificates, up to 
         "must end within the budget without raising with an entry per target, and save -> load -> "
         "validate must give equal verdicts and values. distinct = (version, mutation kinds, "
         "outcome class)")
+RULE_ADDED = (
+              'Also: hex fields cut / padded / replaced to 1..1000 bytes; names with non-ASCII '
+              'characters, NUL and lone surrogates; elements carrying the reserved root name; a '
+              'third of the shards under python -O ')
+RULE = RULE + " " + RULE_ADDED.strip()
 ASSUMPTIONS = [
     "any exception out of from_jsonfile counts as 'reports an error' (the admin tools turn "
     "every exception into an error exit)",
